@@ -41,6 +41,26 @@ def make_X(rng, shape_kind, n_components):
     return X.astype(np.float32)
 
 
+def noncanonical_csr(rng, S):
+    """the same matrix, stored differently: column indices in random order within each row, and explicitly stored zeros in a
+    third of the rows"""
+    ind, dat, ptr = [], [], [0]
+    ncol = S.shape[1]
+    for rw in range(S.shape[0]):
+        a_, b_ = S.indptr[rw], S.indptr[rw + 1]
+        c = S.indices[a_:b_].tolist()
+        v = S.data[a_:b_].tolist()
+        absent = [j for j in range(ncol) if j not in c]
+        if absent and rng.random() < 0.34:
+            c.append(int(rng.choice(absent)))
+            v.append(0.0)
+        pm = rng.permutation(len(c))
+        ind += [c[j] for j in pm]
+        dat += [v[j] for j in pm]
+        ptr.append(len(ind))
+    return scipy.sparse.csr_matrix((np.array(dat, dtype=np.float32), np.array(ind, dtype=np.int32), np.array(ptr, dtype=np.int32)), shape=S.shape)
+
+
 def make_init(rng, init_kind, n, nc):
     if init_kind in ("spectral", "random", "pca", "tswspectral"):
         return init_kind
@@ -75,7 +95,7 @@ def run(ctx):
     ctx.rule = ("a pairwise covering array over shape {regular, n=nc+2, n<=n_neighbors, one feature, duplicates, constant column, all rows "
                 "identical, CSR rows of equal nnz, two distant clusters} x init {spectral, random, pca, tswspectral, ndarray (plain, column-major, float64, strided view, constant "
                 "column, duplicate rows, every row twice, all zeros)} x metric class x sparse x unique x n_components {1,2,5} x n_epochs "
-                "{0,1,11,None} x learning_rate {0,1} x densMAP on/off (always on where samples are isolated), CSR with unsorted column indices for unique=True: fit_transform must return a float32 (n, n_components) array, finite except for "
+                "{0,1,11,None} x learning_rate {0,1} x densMAP on/off (always on where samples are isolated), CSR with unsorted column indices and explicitly stored zeros for unique=True: fit_transform must return a float32 (n, n_components) array, finite except for "
                 "isolated samples, identical rows for identical inputs under unique=True; the rescale / n_neighbors-truncation / unique "
                 "round-trip stage models are compared with the implementation; non-trivial = configuration not seen before in the run. "
                 "init='pca' with fewer features than components (rejected by scikit-learn) is outside 'valid configuration'")
@@ -153,14 +173,8 @@ def run(ctx):
         Xf = scipy.sparse.csr_matrix(X) if sparse else X
         if sparse and unique and sh in ("duplicates", "regular", "equal-nnz-rows"):
             # a CSR matrix need not be canonical: column indices in any order within a row (identical samples stored differently)
-            Xf = Xf.copy()
-            for rw in range(Xf.shape[0]):
-                a_, b_ = Xf.indptr[rw], Xf.indptr[rw + 1]
-                pm = rng.permutation(b_ - a_)
-                Xf.indices[a_:b_] = Xf.indices[a_:b_][pm]
-                Xf.data[a_:b_] = Xf.data[a_:b_][pm]
-            Xf.has_sorted_indices = False
-            case["csr"] = "unsorted-indices"
+            Xf = noncanonical_csr(rng, Xf)
+            case["csr"] = "unsorted-indices+explicit-zeros"
         desc = (sh, ini, metric, sparse, unique, nc, ne, lr, bool(dens))
         try:
             m = umap.UMAP(**kw)
